@@ -16,7 +16,9 @@ Require Import Cirbo.Model.ArithSub Cirbo.Model.ArithSum2 Cirbo.Model.ArithDiv C
 Require Import Cirbo.Model.ArithGen.
 Require Import Cirbo.Proofs.BuilderFacts Cirbo.Proofs.ArithFacts Cirbo.Proofs.ArithSubFacts
   Cirbo.Proofs.ArithSum2Facts Cirbo.Proofs.ArithMiscFacts Cirbo.Proofs.ArithDivFacts
-  Cirbo.Proofs.ArithSqrtFacts Cirbo.Proofs.ArithGenFacts.
+  Cirbo.Proofs.ArithSqrtFacts Cirbo.Proofs.ArithGenFacts Cirbo.Proofs.TotalFacts
+  Cirbo.Proofs.ArithTotalFacts Cirbo.Proofs.ArithTotalMiscFacts.
+Require Import Coq.Logic.FinFun.
 Open Scope Z_scope.
 
 (* ---- the builder layer ---------------------------------------------------------------- *)
@@ -147,6 +149,66 @@ Theorem C09_pairwise_xor_exact : forall fresh xs ys res ao s r s',
   forall asg xv yv, bvals (bc s) asg xs xv -> bvals (bc s) asg ys yv ->
     bvals (bc s') asg r (map2 xorb xv yv).
 Proof. exact add_pairwise_xor_correct. Qed.
+
+(* ---- "every add_* form works on arbitrary existing gates" ------------------------------------ *)
+(* The model returns Ok (so the theorems above apply) whenever the operands are existing gates of
+   the host, the widths are as documented and caller-chosen labels are new and distinct -- for
+   every injective naming function of the uuid counter.  `all_exist c ls`: every label of ls names
+   a gate of c;  `absent c ls`: none does. *)
+Theorem C09_sub_works : forall fresh, Injective fresh -> forall xs ys be s,
+  xs <> [] -> ys <> [] -> all_exist (bc s) xs -> all_exist (bc s) ys ->
+  exists r s', run fresh (add_sub_two_numbers xs ys be) s = Ok (r, s').
+Proof. exact (fun fresh Hinj => add_sub_two_numbers_total fresh (injective_fresh_total fresh Hinj)). Qed.
+
+Theorem C09_sub_with_compare_works : forall fresh, Injective fresh -> forall xs ys be s,
+  xs <> [] -> ys <> [] -> all_exist (bc s) xs -> all_exist (bc s) ys ->
+  exists r s', run fresh (add_subtract_with_compare xs ys be) s = Ok (r, s').
+Proof. exact (fun fresh Hinj => add_subtract_with_compare_total fresh (injective_fresh_total fresh Hinj)). Qed.
+
+Theorem C09_div_mod_works : forall fresh, Injective fresh -> forall xs ys be s,
+  xs <> [] -> length ys = length xs -> all_exist (bc s) xs -> all_exist (bc s) ys ->
+  exists r s', run fresh (add_div_mod xs ys be) s = Ok (r, s').
+Proof. exact (fun fresh Hinj => add_div_mod_total fresh (injective_fresh_total fresh Hinj)). Qed.
+
+Theorem C09_sqrt_works : forall fresh, Injective fresh -> forall xs be s,
+  xs <> [] -> all_exist (bc s) xs -> exists r s', run fresh (add_sqrt xs be) s = Ok (r, s').
+Proof. exact (fun fresh Hinj => add_sqrt_total fresh (injective_fresh_total fresh Hinj)). Qed.
+
+Theorem C09_equal_works : forall fresh, Injective fresh -> forall xs num s,
+  xs <> [] -> all_exist (bc s) xs -> exists r s', run fresh (add_equal xs num) s = Ok (r, s').
+Proof. exact (fun fresh Hinj => add_equal_total fresh (injective_fresh_total fresh Hinj)). Qed.
+
+Theorem C09_plus_one_works : forall fresh, Injective fresh -> forall xs res ao be s,
+  xs <> [] -> all_exist (bc s) xs ->
+  (forall rl, res = Some rl -> rl <> [] /\ NoDup rl /\ absent (bc s) rl) ->
+  exists r s', run fresh (add_plus_one xs res ao be) s = Ok (r, s').
+Proof. exact add_plus_one_total. Qed.
+
+Theorem C09_if_then_else_works : forall fresh, Injective fresh -> forall i t e res ao s,
+  has_gate (bc s) i = true -> has_gate (bc s) t = true -> has_gate (bc s) e = true ->
+  (forall r0, res = Some r0 -> has_gate (bc s) r0 = false) ->
+  exists r s', run fresh (add_if_then_else i t e res ao) s = Ok (r, s').
+Proof. exact add_if_then_else_total. Qed.
+
+(* caller-chosen result labels must not be of the uuid shape: the temporaries of pair i are
+   generated after the labels were chosen and could otherwise take the label of pair i+1 *)
+Theorem C09_pairwise_if_then_else_works : forall fresh, Injective fresh -> forall is_ ts es res ao s,
+  all_exist (bc s) is_ -> all_exist (bc s) ts -> all_exist (bc s) es ->
+  length ts = length is_ -> length es = length is_ ->
+  (forall rl, res = Some rl -> length rl = length is_ /\ NoDup rl /\ absent (bc s) rl /\
+                               forall r k, In r rl -> r <> fresh k) ->
+  exists r s', run fresh (add_pairwise_if_then_else is_ ts es res ao) s = Ok (r, s').
+Proof. exact add_pairwise_if_then_else_total. Qed.
+
+Theorem C09_pairwise_xor_works : forall fresh, Injective fresh -> forall xs ys res ao s,
+  all_exist (bc s) xs -> all_exist (bc s) ys -> length ys = length xs ->
+  (forall rl, res = Some rl -> length rl = length xs /\ NoDup rl /\ absent (bc s) rl) ->
+  exists r s', run fresh (add_pairwise_xor xs ys res ao) s = Ok (r, s').
+Proof. exact add_pairwise_xor_total. Qed.
+
+(* non-vacuity of the hypothesis: the naming function the harness uses is injective *)
+Example C09_short_label_injective : Injective short_label.
+Proof. exact short_label_injective. Qed.
 
 (* ---- the generate_* wrappers --------------------------------------------------------------- *)
 (* `assigns asg ins bs`: the assignment gives the inputs ins the Boolean values bs *)
